@@ -10,6 +10,9 @@ Oracle (ground truth = the simulated radio's register file, CE pin and SPI log):
                 other object's value shows through); `restore`: it wrote a value other than the one
                 the object last established.
   exit          after every __exit__: CONFIG.PWR_UP == 0 and CE low.
+  foreign       at the end of every block of a network / mesh object the radio's pipe addresses are the ones derived
+                from THAT object's own address_prefix / address_suffix / node address / multicast level (the
+                RF24Network object runs a second network with the prefix and suffix of the documentation's network_b).
 Counterexamples are minimised by re-execution (calls are dropped while the same violation
 persists) so that the signature names only the calls that matter:
   C09/<clause>:<class of X>:<register groups failing in the minimal counterexample>:<op class>
@@ -76,6 +79,12 @@ def ops_for(cname, seed):
         if cname in ("RF24Network", "RF24Mesh") and name not in RADIO_MIXIN:
             continue
         out.append(e[:4])
+    if cname in ("RF24Network", "RF24Mesh"):
+        # the calls that translate logical into physical addresses (each object with its own prefix / suffix)
+        out.append(("set", "multicast_level", (2,), "valid"))
+        if cname == "RF24Network":  # (the mesh classes have no node_address setter)
+            out.append(("set", "node_address", (0o2,), "valid"))
+            out.append(("set", "node_address", (0,), "valid"))
     if cname == "FakeBLE":
         out.append(("set", "channel", (26,), "ble-frequency"))
         out.append(("call", "hop_channel", (), "-"))
@@ -95,7 +104,13 @@ def attach(world, radio, cname):
         return H.attach_driver(world, radio, getattr(H, cname))
     spi = SimSpiDev(radio, 30 * H.US)
     if cname == "RF24Network":
-        return H.RF24Network(spi, 0, radio.ce_pin, NET_ADDR)
+        o = H.RF24Network(spi, 0, radio.ce_pin, NET_ADDR)
+        # a second network on the same radio uses its own physical addresses (docs/network_docs/topology.rst,
+        # "2 separate networks": prefix / suffix of network_b, then node_address re-assigned)
+        o.address_prefix = bytearray([0xDB])
+        o.address_suffix = bytearray([0xDD, 0x99, 0xB6, 0xD9, 0x9D, 0x66])
+        o.node_address = NET_ADDR
+        return o
     if cname == "RF24Mesh":
         return H.RF24Mesh(spi, 0, radio.ce_pin, 0)  # node id 0: the mesh master, needs no address lease
     raise HarnessError("unknown class " + cname)
@@ -138,6 +153,21 @@ def mask_pwr(d):
     if R.CONFIG in d and (d[R.CONFIG][0] ^ d[R.CONFIG][1]) == R.PWR_UP:
         d.pop(R.CONFIG)
     return d
+
+
+def foreign_addresses(obj, cname, radio):
+    """network objects: the pipe addresses on the radio are the ones derived from THIS object's prefix, suffix, node
+    address and multicast level (independent reference vf.net.expected_pipes) -> text or None"""
+    if cname not in ("RF24Network", "RF24Mesh"):
+        return None
+    from ..net import expected_pipes
+    exp = expected_pipes(obj.node_address, obj.multicast_level, bool(obj.allow_multicast), obj.address_prefix[0], tuple(obj.address_suffix))
+    got = [radio.pipe_addr(p) for p in range(6)]
+    lo = 0 if radio.prx() else 1  # pipe 0 holds the TX address while the object is not listening
+    bad = [p for p in range(lo, 6) if got[p] != exp[p]]
+    if bad:
+        return "pipe %d holds %s, this object's own address is %s" % (bad[0], got[bad[0]].hex(), exp[bad[0]].hex())
+    return None
 
 
 def run_block(st, x, ops, classes, first_entry):
@@ -186,6 +216,9 @@ def run_block(st, x, ops, classes, first_entry):
         exc, _ = do_call(obj, op)
         outs.append("%s:%s:%s" % (cname, op[1], exc or "ok"))
     w.settle(100 * MS)
+    fa = foreign_addresses(obj, cname, radio)
+    if fa and not viol:
+        viol.append(("foreign", cname, "RX_ADDR", "%s at the end of its block: %s" % (cname, fa)))
     last[x] = radio.regfile()
     obj.__exit__(None, None, None)
     if radio.r[0] & R.PWR_UP or radio.ce_pin.value:
